@@ -148,8 +148,10 @@ def DragModelMultiBC(bc_points: List[BCPoint],
         bc = 1.0
 
     drag_table = make_data_points(drag_table)  # Convert from list of dicts to list of DragDataPoints
+    # The points may belong to the caller (or to another DragModel): scale copies, not the originals
+    drag_table = [DragDataPoint(point.Mach, point.CD) for point in drag_table]
 
-    bc_points.sort(key=lambda p: p.Mach)  # Make sure bc_points are sorted for linear interpolation
+    bc_points = sorted(bc_points, key=lambda p: p.Mach)  # bc_points must be sorted for linear interpolation
     bc_interp = linear_interpolation([x.Mach for x in drag_table],
                                      [x.Mach for x in bc_points],
                                      [x.BC / bc for x in bc_points])
